@@ -513,7 +513,7 @@ theorem witness_rule (e : Env) (acc : Nat) (caller : Option Nat) (cur : Nat) :
   witOf_iff e acc caller cur
 
 /-- `unwitnessed_call_no_effect`: a native call (transfer, vote, unregisterCandidate, lockDepositUntil, withdraw,
-setGasPerBlock, setRegisterPrice, blockAccount, unblockAccount) whose witness check fails leaves the ledger exactly
+setGasPerBlock, setRegisterPrice, blockAccount, unblockAccount, designateAsRole) whose witness check fails leaves the ledger exactly
 as it was, or faults the transaction (the ledger of the transaction's start comes back): no balance, vote, deposit,
 candidate record, setting or blocked entry changes without the required witness. -/
 theorem unwitnessed_call_no_effect (s : St) (op : Op) (h : op.witness s = some false) :
@@ -539,6 +539,41 @@ example :
     (Op.transfer .gas 3 4 5 (some 50) .null .other).witness s = some false ∧
     (exec s (.transfer .gas 3 4 5 (some 50) .null .other)).cur.gas = [(3, 10)] ∧
     (exec s (.transfer .gas 3 4 5 none .null .other)).cur.gas = [(3, 5), (4, 5)] := by decide
+
+/-! ## the designated notary nodes -/
+
+/-- `designation_spec`: RoleManagement.designateAsRole(P2PNotary, nodes) succeeds iff the list is not empty, has at most
+32 nodes, the committee witnesses, no designation was made in the same block, and no node is listed twice; then the
+latest designation — the one Notary.OnPersist rewards from the next block on, computed by the model, no longer
+supplied by the harness — is the sorted list. -/
+theorem designation_spec (e : Env) (l l' : Ledger) (nodes : List Nat) (wit : Bool) :
+    designateNotary e l nodes wit = some l' ↔
+      (nodes ≠ [] ∧ nodes.length ≤ 32 ∧ wit = true ∧ l.notaryHeight ≠ e.index + 1 ∧ nodes.eraseDups.length = nodes.length ∧
+        l' = { l with notaryNodes := sortBy (fun a b => decide (a ≤ b)) nodes, notaryHeight := e.index + 1 }) := by
+  unfold designateNotary
+  by_cases h1 : nodes = []
+  · simp [h1]
+  · by_cases h2 : nodes.length > 32
+    · simp [h1, h2]; intro _; omega
+    · cases wit with
+      | false => simp [h1, h2]
+      | true =>
+        by_cases h3 : l.notaryHeight = e.index + 1
+        · simp [h1, h2, h3]
+        · by_cases h4 : nodes.eraseDups.length = nodes.length
+          · simp [h1, h2, h3, h4]
+            constructor
+            · intro h; exact ⟨by omega, h.symm⟩
+            · intro h; exact h.2.symm
+          · simp [h1, h2, h3, h4]
+
+-- non-vacuity: nodes 14, 13 designated in block 5 are recorded sorted from block 6; a second designation in the same
+-- block, a duplicate, the empty list and a missing committee witness are refused
+example :
+    let e : Env := { notary := 90, neoC := 91, csize := 1, vcount := 1, attrFee := 0, index := 5 }
+    (designateNotary e {} [14, 13] true).map (fun l => (l.notaryNodes, l.notaryHeight)) = some ([13, 14], 6) ∧
+    designateNotary e { notaryHeight := 6 } [14] true = none ∧ designateNotary e {} [14, 14] true = none ∧
+    designateNotary e {} [] true = none ∧ designateNotary e {} [14] false = none := by decide
 
 /-! ## contracts blocked by Policy -/
 
